@@ -370,6 +370,9 @@ class TypeNode(Node):
         self.children = {}
 
     def _construct(self):
+        if (self.module_name, self.class_name) == ("builtins", "NoneType"):
+            # NoneType says it lives in builtins but is not an attribute of it
+            return type(None)
         return _import_obj(self.module_name, self.class_name)
 
 
